@@ -613,6 +613,122 @@ func (r *rs) r1() {
 			c.Okf("R1.account", "balance/"+name, fd.Pos(), "%d consuming, %d un-consuming, %d counter updates balance on every successful path", a.consume, a.unread, a.counters)
 		}
 	}
+	// The position lives in ONE Decoder. A function that gets a Decoder BY VALUE (value receiver, value
+	// parameter) works on a copy: the copy shares the *bufio.Reader, so the bytes it reads are really
+	// consumed, but what it adds to its offset is thrown away when it returns. Any update of the offset
+	// field - or consumption from the reader - through such a copy breaks the balance for the caller.
+	byValue := 0
+	for _, file := range r.pk.Syntax {
+		if core.IsTestFile(c.Fset, file) {
+			continue
+		}
+		for _, d := range file.Decls {
+			fd, ok := d.(*ast.FuncDecl)
+			if !ok || fd.Body == nil {
+				continue
+			}
+			var copies []types.Object
+			fields := []*ast.FieldList{fd.Recv, fd.Type.Params}
+			for _, fl := range fields {
+				if fl == nil {
+					continue
+				}
+				for _, f := range fl.List {
+					t := info.TypeOf(f.Type)
+					if t == nil || core.NamedTypeName(t) != "Decoder" {
+						continue
+					}
+					if _, isPtr := t.(*types.Pointer); isPtr {
+						continue
+					}
+					if _, isStruct := t.Underlying().(*types.Struct); !isStruct {
+						continue
+					}
+					for _, nm := range f.Names {
+						if o := info.Defs[nm]; o != nil {
+							copies = append(copies, o)
+						}
+					}
+				}
+			}
+			if len(copies) == 0 {
+				continue
+			}
+			// a function that hands the copy back (returns a Decoder) may be a legitimate "with" helper
+			returnsIt := false
+			if fd.Type.Results != nil {
+				for _, f := range fd.Type.Results.List {
+					if core.NamedTypeName(info.TypeOf(f.Type)) == "Decoder" {
+						returnsIt = true
+					}
+				}
+			}
+			onCopy := func(e ast.Expr, field string) bool {
+				sel, ok := ast.Unparen(e).(*ast.SelectorExpr)
+				if !ok || sel.Sel.Name != field {
+					return false
+				}
+				for _, o := range copies {
+					if flow.IsObj(info, o)(sel.X) {
+						return true
+					}
+				}
+				return false
+			}
+			var lost, consumed ast.Node
+			core.InspectAll(fd.Body, func(m ast.Node) bool {
+				switch x := m.(type) {
+				case *ast.AssignStmt:
+					for _, l := range x.Lhs {
+						if onCopy(l, "offset") {
+							lost = x
+						}
+					}
+				case *ast.IncDecStmt:
+					if onCopy(x.X, "offset") {
+						lost = x
+					}
+				case *ast.CallExpr:
+					if fs, ok := ast.Unparen(x.Fun).(*ast.SelectorExpr); ok && onCopy(fs.X, "r") {
+						switch fs.Sel.Name {
+						case "Peek", "Buffered", "Size":
+						default:
+							consumed = x
+						}
+					}
+					for _, a := range x.Args {
+						if onCopy(a, "r") {
+							consumed = x
+						}
+					}
+				}
+				return true
+			})
+			if lost == nil && consumed == nil {
+				continue
+			}
+			byValue++
+			at := lost
+			if at == nil {
+				at = consumed
+			}
+			key := "by-value/" + fd.Name.Name
+			if returnsIt {
+				c.Undecidedf("R1.account", key, at.Pos(), "%s works on a Decoder passed by value and returns a Decoder: whether the caller keeps the returned copy is not followed", fd.Name.Name)
+				continue
+			}
+			if lost == nil {
+				// reading through the copy is real consumption; who counts it is not visible here
+				c.Undecidedf("R1.account", key, at.Pos(), "%s consumes bytes through a Decoder passed by value (%s): the position cannot be advanced from here", fd.Name.Name, c.Src(at))
+				continue
+			}
+			what := "updates the offset of"
+			c.Failf("R1.account", key, at.Pos(), "%s %s a Decoder it received BY VALUE (%s): the copy shares the reader, so the bytes are consumed, but the position it counts is discarded with the copy when the function returns - the caller's offset no longer equals the bytes consumed, and every replication offset derived from it lags behind", fd.Name.Name, what, c.Src(at))
+		}
+	}
+	if byValue == 0 {
+		c.Okf("R1.account", "by-value", token.NoPos, "no function updates the offset of, or reads through, a Decoder passed by value")
+	}
 	if consume < 4 || unread < 1 || funcs < 5 {
 		c.Undecidedf("instances", "R1.account", token.NoPos, "found %d consuming and %d un-consuming sites in %d functions; 4, 1 and 5 were confirmed by hand", consume, unread, funcs)
 	}
